@@ -11,7 +11,8 @@ ID = "C05"
 TAG = cc.TAG
 EXTRACT = cc.EXTRACT
 DRIVER = cc.DRIVER
-COQ_FILES = ["FA/Proofs/CaptureProofs.v", "FA/Proofs/CaptureSem.v", "FA/Proofs/CaptureGen.v", "FA/Properties/C05.v"]
+COQ_FILES = ["FA/Proofs/CaptureProofs.v", "FA/Proofs/CaptureSem.v", "FA/Proofs/CaptureGen.v", "FA/Proofs/CaptureStar.v",
+             "FA/Properties/C05.v"]
 
 LEVEL = ("Coq theorems over the executable model of _rewrite_captured_vars.visit_Name/visit_Call + _resolve_called_lambdas "
          "(Model/Capture.v, mirroring the code incl. fixes F06, F07, FC2, FC4-FC8, F30-F32; lambdas with default values and every "
@@ -21,7 +22,8 @@ LEVEL = ("Coq theorems over the executable model of _rewrite_captured_vars.visit
          "the one hypothesis, first_order, is the declared limit of the reference semantics (a lambda parameter is not itself "
          "called); inline_sem_stack (the invariant for arbitrary argument-map stacks); inline_leaves_by_name; structural theorems for "
          "what the reference semantics cannot express: inline_leaves_starred_call(_defaults) (F30: a call with a starred argument "
-         "stays a call), inline_defaults_in_enclosing_scope / inline_default_sees_argument (F31: default values of a lambda that "
+         "stays a call) and inline_keeps_starred_in_place (Proofs/CaptureStar.v: over EVERY tree the pass never moves a starred node "
+         "out of an argument list / display), inline_defaults_in_enclosing_scope / inline_default_sees_argument (F31: default values of a lambda that "
          "stays are resolved with the enclosing argument maps), inline_counts_every_binder / inline_stays_on_any_binder (F32), each "
          "with a _pinned_refuted Example of the pre-fix behaviour; Examples for parameter-only bodies, shadowing, bail-out, helpers "
          "of helpers.  Model tied to the code by exact comparison on generated Python programs (incl. higher-order helpers, starred "
